@@ -221,6 +221,8 @@ void scratch_pad_free(scratch_pad * scratch);
 /// Ensure at least num newlines at end of output buffer
 void pad(DString * d, short num, scratch_pad * scratch);
 
+void extract_from_paren(token * paren, const char * source, char ** url, char ** title, char ** attributes);
+
 link * explicit_link(scratch_pad * scratch, token * label, token * url, const char * source);
 
 /// Find link based on label
